@@ -8,6 +8,7 @@ package ice
 // lean/Driver/Framing.lean.
 
 import (
+	"bytes"
 	"context"
 	"encoding/hex"
 	"errors"
@@ -472,6 +473,20 @@ func vFrameATC(o *vOut, segs [][]byte, flat []byte) string {
 	if tc, ok := srv.(*net.TCPConn); ok {
 		_ = tc.SetNoDelay(true)
 	}
+	// The connection is used in BOTH directions: between the inbound segments the local side sends packets of its
+	// own (the peer drains them), so a frame that is still being received shares the connection's lifetime with
+	// outbound traffic - what is delivered must not depend on it.
+	drained := make(chan struct{})
+	go func() {
+		defer close(drained)
+		sink := make([]byte, 4096)
+		for {
+			if _, err := srv.Read(sink); err != nil {
+				return
+			}
+		}
+	}()
+	out := bytes.Repeat([]byte{0xa7}, 700)
 	for i, s := range segs {
 		if len(s) == 0 {
 			continue
@@ -480,10 +495,15 @@ func vFrameATC(o *vOut, segs [][]byte, flat []byte) string {
 			break
 		}
 		if i < 6 {
+			_, _ = a.WriteTo(out, srv.LocalAddr())
+			o.stat("atc.local_writes")
 			time.Sleep(200 * time.Microsecond)
 		}
 	}
-	_ = srv.Close() // FIN after the data: the reader sees every byte, then io.EOF
+	if tc, ok := srv.(*net.TCPConn); ok {
+		_ = tc.CloseWrite() // FIN after the data: the reader sees every byte, then io.EOF
+	}
+	time.AfterFunc(2*time.Millisecond, func() { _ = srv.Close() })
 	// Wait until the expected number of packets is queued; a reader that delivers fewer is given up
 	// on once its queue has been stable for 400 ms (or after 3 s).
 	want := vFrameCount(flat)
